@@ -131,9 +131,25 @@ pub fn exec_op(ctx: &mut ArrCtx, verb: &str, m: &BTreeMap<String, String>, line:
             let _ = base.set(&StoreKey::new("grp2_c20/.zattrs").unwrap(), br#"{"spam":"ham","eggs":42}"#.to_vec().into());
             let _ = base.set(&StoreKey::new("arr2_c20/.zarray").unwrap(), br#"{"zarr_format":2,"shape":[4,6],"chunks":[2,3],"dtype":"|u1","compressor":null,"fill_value":0,"order":"C","filters":null}"#.to_vec().into());
             let _ = base.set(&StoreKey::new("arr2_c20/.zattrs").unwrap(), br#"{"a":1}"#.to_vec().into());
+            // a small hierarchy: every listing method reads the metadata of each child it discovers
+            const HG: &str = r#"{"zarr_format":3,"node_type":"group"}"#;
+            const HA: &str = r#"{"zarr_format":3,"node_type":"array","shape":[2],"data_type":"uint8","chunk_grid":{"name":"regular","configuration":{"chunk_shape":[1]}},"chunk_key_encoding":{"name":"default","configuration":{"separator":"/"}},"fill_value":0,"codecs":[{"name":"bytes"}]}"#;
+            let hier: [(&str, &str); 6] = [("hg_c20/zarr.json", HG), ("hg_c20/a/zarr.json", HA), ("hg_c20/b/zarr.json", HA), ("hg_c20/g/zarr.json", HG), ("hg_c20/g/c/zarr.json", HA), ("hg_c20/v2/.zgroup", r#"{"zarr_format":2}"#)];
+            for (k, v) in hier { let _ = base.set(&StoreKey::new(k).unwrap(), v.as_bytes().to_vec().into()); }
             let snap0 = snapshot(&base);
-            let run = |which: &str| -> bool {
+            // `strict` (the fault-free run): a listing must be COMPLETE to count as a success; under a fault (`!strict`) ANY `Ok` of a
+            // listing counts as "ok with fault" — a listing that returns `Ok` with a child missing (the child's metadata read
+            // failed and was skipped) is not an error and must not be taken for one
+            let run = |which: &str, strict: bool| -> bool {
+                let want = |len: usize, n: usize| !strict || len == n;
                 match which {
+                    "children" => Group::open(fsd.clone(), "/hg_c20").ok().and_then(|g| g.children(true).ok()).map(|c| want(c.len(), 4)).unwrap_or(false),
+                    "child_paths" => Group::open(fsd.clone(), "/hg_c20").ok().map(|g| {
+                        let rs = [g.child_paths(false).map(|v| want(v.len(), 4)).unwrap_or(false), g.child_group_paths(false).map(|v| want(v.len(), 2)).unwrap_or(false),
+                            g.child_array_paths(false).map(|v| want(v.len(), 2)).unwrap_or(false), g.child_groups(false).map(|v| want(v.len(), 2)).unwrap_or(false), g.child_arrays(false).map(|v| want(v.len(), 2)).unwrap_or(false)];
+                        // fault-free: all five complete; under a fault: at most one of the five meets it, the others succeed — all five `Ok` means the fault was swallowed
+                        rs.iter().all(|b| *b) }).unwrap_or(false),
+                    "node_tree" => zarrs::node::Node::open(&fsd, "/hg_c20").map(|n| want(n.children().len(), 4)).unwrap_or(false),
                     "store_metadata" => array.store_metadata().is_ok(),
                     "erase_metadata" => array.erase_metadata().is_ok(),
                     "open" => Array::open(fsd.clone(), &ctx.path).is_ok(),
@@ -145,10 +161,10 @@ pub fn exec_op(ctx: &mut ArrCtx, verb: &str, m: &BTreeMap<String, String>, line:
                 }
             };
             let mut out = vec![];
-            for which in ["store_metadata", "open", "open_v2", "group", "erase_metadata"] {
+            for which in ["store_metadata", "open", "open_v2", "group", "children", "child_paths", "node_tree", "erase_metadata"] {
                 restore(&base, &snap0);
                 fs.count.store(0, Ordering::SeqCst); fs.fail_at.store(0, Ordering::SeqCst); let _ = fs.take_trace(false);
-                let ok0 = std::panic::catch_unwind(std::panic::AssertUnwindSafe(|| run(which))).unwrap_or(false);
+                let ok0 = std::panic::catch_unwind(std::panic::AssertUnwindSafe(|| run(which, true))).unwrap_or(false);
                 let n = fs.count.load(Ordering::SeqCst);
                 // metadata / node methods are sequential: the trace is kept in the order of arrival
                 let t0 = fs.take_trace(false);
@@ -156,13 +172,14 @@ pub fn exec_op(ctx: &mut ArrCtx, verb: &str, m: &BTreeMap<String, String>, line:
                 for k in 1..=n {
                     restore(&base, &snap0);
                     fs.count.store(0, Ordering::SeqCst); fs.fail_at.store(k as i64, Ordering::SeqCst);
-                    match std::panic::catch_unwind(std::panic::AssertUnwindSafe(|| run(which))) { Ok(true) => okf += 1, Ok(false) => {}, Err(_) => panics += 1 }
+                    match std::panic::catch_unwind(std::panic::AssertUnwindSafe(|| run(which, false))) { Ok(true) => okf += 1, Ok(false) => {}, Err(_) => panics += 1 }
                 }
                 out.push(format!("{}:{}:n={}:ok_with_fault={}:panics={}:t={}", which, ok0, n, okf, panics, t0));
             }
             fs.fail_at.store(0, Ordering::SeqCst);
             restore(&base, &snap0);
             for k in ["grp2_c20/.zgroup", "grp2_c20/.zattrs", "arr2_c20/.zarray", "arr2_c20/.zattrs"] { let _ = base.erase(&StoreKey::new(k).unwrap()); }
+            let _ = base.erase_prefix(&StorePrefix::new("hg_c20/").unwrap());
             format!("meta {}", out.join(" "))
         }
     }
